@@ -124,6 +124,18 @@ func traceLabel(t *tTrace) string {
 	return ""
 }
 
+// traceName: obligations are named by node method and, where the method
+// switches on an operator or builtin name, that name; all emission paths of
+// the method share the name (one VC each), so that a harmless change of the
+// emitted sequence does not rename obligations.
+func traceName(tr *tTrace, label string) string {
+	name := "tmpl:" + tr.Method
+	if label != "" {
+		name += "[" + strings.ReplaceAll(label, " ", "-") + "]"
+	}
+	return name
+}
+
 func checkTemplates(w *World, e *Exec, traces []*tTrace) {
 	eff := opEffects(w)
 	cct := w.Contracts["compiler.compiler.BuiltinNode"]
@@ -144,16 +156,7 @@ func checkTemplates(w *World, e *Exec, traces []*tTrace) {
 			continue // a failing compilation (reported as a compile error): no program is produced
 		}
 		label := traceLabel(tr)
-		name := "tmpl:" + tr.Method
-		if label != "" {
-			name += "[" + label + "]"
-		} else {
-			sig := tr.Sig[strings.Index(tr.Sig, ":")+1:]
-			if len(sig) > 40 {
-				sig = sig[:40]
-			}
-			name += "[" + sig + "]"
-		}
+		name := traceName(tr, label)
 		seenName[name]++
 		st := tr.St
 		add := func(clause string, extra []*Term, goal *Term, desc string) {
@@ -161,7 +164,7 @@ func checkTemplates(w *World, e *Exec, traces []*tTrace) {
 			for _, x := range extra {
 				s2.Assume(x)
 			}
-			e.AddVC(name+"/"+clause, "tmpl", "compiler."+tr.Method, s2, Not(goal), desc)
+			e.AddVC(name+"/"+clause, "tmpl", "compiler."+tr.Method, s2, Not(goal), desc+" [emission path "+tr.Sig+"]")
 		}
 		if tr.Failed != "" {
 			add("extract", nil, False, "the emission of this path could not be abstracted: "+tr.Failed)
@@ -489,6 +492,7 @@ func genTemplates(w *World) ([]*Obligation, []string) {
 	e := NewExec(w)
 	trs := extractTemplates(w, e)
 	checkTemplates(w, e, trs)
+	checkTemplateValues(w, e, trs)
 	return e.obls, e.Notes()
 }
 
